@@ -12,6 +12,7 @@
 //	                        (bits | nan | err: the float-parsing oracle); IMPL: V=<what the real reader makes of it> ;; REF=<math/big value>
 //	hist N OPS              a hash built by N operations (P key value | D key) through HashSet / HashDelete; IMPL: P=<printed> ;;
 //	                        LV=<every key of the abstract map looked up in the live hash> ;; E=<content of EvalString(P)> ;; W=<abstract map>
+//	scr J N EXPR VALUE      the value of the script expression EXPR (N runes), observed as VALUE (T = a string with the backtick flag); IMPL as for val
 //	orc TEXT                a contract of the trusted strconv oracles checked here: IMPL ok | bad
 package main
 
@@ -99,10 +100,14 @@ func guard(f func() string) (res string) {
 var tmpdir string
 
 func valCase(env *zygo.Zlisp, v *V, jsonlike bool, withSource bool, tags ...string) {
+	valCaseSexp(env, v, v.sexp(env), "val", "", jsonlike, withSource, tags...)
+}
+
+// valCaseSexp: v describes sx (sx may be a live value computed by a script, e.g. with the backtick flag)
+func valCaseSexp(env *zygo.Zlisp, v *V, sx zygo.Sexp, prefix, extra string, jsonlike bool, withSource bool, tags ...string) {
 	if jsonlike && !v.isJSONLike() {
 		jsonlike = false
 	}
-	sx := v.sexp(env)
 	printed := ""
 	p := guard(func() string {
 		r, err := zygo.StringifyFunction(env, "str", []zygo.Sexp{sx})
@@ -129,7 +134,7 @@ func valCase(env *zygo.Zlisp, v *V, jsonlike bool, withSource bool, tags ...stri
 		}
 		return sb.String()
 	})
-	ev, src := "-", "-"
+	ev, src, saved, wfile := "-", "-", "-", "-"
 	if jsonlike {
 		ev = guard(func() string {
 			r := lib.Eval(env, printed, 200000)
@@ -151,6 +156,27 @@ func valCase(env *zygo.Zlisp, v *V, jsonlike bool, withSource bool, tags ...stri
 				}
 				return canonSexp(r.Val, 0)
 			})
+			// the script-level save: (owritef v path) then (source path); strings and arrays are written
+			// as their content / as lines by design, so only other values are saved whole
+			if v.K != 'S' && v.K != 'A' {
+				saved = guard(func() string {
+					fn := filepath.Join(tmpdir, "w.zy")
+					if _, err := zygo.WriteToFileFunction("owritef")(env, "owritef", []zygo.Sexp{sx, &zygo.SexpStr{S: fn}}); err != nil {
+						return "WRITEERR"
+					}
+					b, err := os.ReadFile(fn)
+					if err != nil {
+						return "IOERR"
+					}
+					wfile = printedItems(string(b))
+					env.AddGlobal("c12file", &zygo.SexpStr{S: fn})
+					r := lib.Eval(env, "(source c12file)", 200000)
+					if r.Class != lib.OutValue {
+						return strings.ToUpper(r.Class)
+					}
+					return canonSexp(r.Val, 0)
+				})
+			}
 		}
 	}
 	env.Clear()
@@ -160,8 +186,8 @@ func valCase(env *zygo.Zlisp, v *V, jsonlike bool, withSource bool, tags ...stri
 	} else if v.hasHash() {
 		j = "2" // a hash outside the JSON-like fragment: the property is silent, correspondence only
 	}
-	impl := "P=" + p + " ;; R=" + rd + " ;; E=" + ev + " ;; S=" + src
-	out.Case("val "+j+" "+v.canon(true), impl, true, tags...)
+	impl := "P=" + p + " ;; R=" + rd + " ;; E=" + ev + " ;; S=" + src + " ;; SV=" + saved + " ;; W=" + wfile
+	out.Case(prefix+" "+j+" "+extra+v.canon(true), impl, true, tags...)
 }
 
 func valTags(v *V, prefix string) []string {
@@ -268,6 +294,11 @@ func valueStream(rng *lib.Rng, nData, nJSON int) {
 			items = append(items, &V{K: 'F', F: f, Sci: true}, &V{K: 'I', I: -int64(k)})
 			grid = append(grid, &V{K: 'A', Items: items})
 		}
+	}
+	// percent signs in saved data (the save path must not treat the text as a format string)
+	for _, txt := range []string{"50% done", "%d %s %v %%", "%", "100%!", "%!d(MISSING)", "a%20b"} {
+		grid = append(grid, &V{K: 'H', Keys: []*V{{K: 'S', S: "note"}}, Items: []*V{{K: 'S', S: txt}}},
+			&V{K: 'H', Keys: []*V{{K: 'S', S: txt}}, Items: []*V{{K: 'A', Items: []*V{{K: 'S', S: txt}, {K: 'I', I: 5}}}}})
 	}
 	for _, key := range []string{"a\\b", "\\", "x\\n", "q\"r", "tab\there", "nl\nx", "a b", "é", ":", "k:"} {
 		grid = append(grid, &V{K: 'H', Keys: []*V{{K: 'S', S: key}}, Items: []*V{{K: 'I', I: 1}}})
@@ -651,9 +682,9 @@ func main() {
 	}
 	defer os.RemoveAll(tmpdir)
 	rng := lib.NewRng(args.Seed)
-	nData, nJSON, nQS, litLen, nLit, nHist := 2000, 900, 1500, 4, 3000, 400
+	nData, nJSON, nQS, litLen, nLit, nHist, nScr := 2000, 900, 1500, 4, 3000, 400, 500
 	if args.Tier == "thorough" {
-		nData, nJSON, nQS, litLen, nLit, nHist = 40000, 15000, 30000, 5, 60000, 8000
+		nData, nJSON, nQS, litLen, nLit, nHist, nScr = 40000, 15000, 30000, 5, 60000, 8000, 10000
 	}
 	if args.Replay != "" {
 		replay(args.Replay)
@@ -662,6 +693,7 @@ func main() {
 		valueStream(rng.Fork(), nData, nJSON)
 		litStream(rng.Fork(), litLen, nLit)
 		histStream(rng.Fork(), nHist)
+		scriptStream(rng.Fork(), nScr)
 	}
 	out.Extra["harness_wall_s"] = time.Since(t0).Seconds()
 	out.Close(args.Stats)
